@@ -90,8 +90,12 @@ class Watch:
         self.raised = 0
 
     def state(self):
+        try:
+            defaults = value_fp(self.p.get_defaults())
+        except Exception as ex:  # noqa
+            defaults = ("get_defaults raises", fmt_exc(ex))
         return {
-            "defaults": value_fp(self.p.get_defaults()),
+            "defaults": defaults,
             "action_defaults": tuple((a.dest, fp(a.default)) for a in self.p._actions),
             "cwd": os.getcwd(),
             "environ": dict(os.environ),
@@ -192,10 +196,30 @@ def objects_in(v, out=None):
 
 
 def run_case(ctx, case):
+    with _rt.scratch_dir() as dcf:
+        _run_case(ctx, case, dcf)
+
+
+def _run_case(ctx, case, dcf):
+    import json
+
     from jsonargparse import ArgumentError, Namespace, dict_to_namespace
 
     recipe = dict(case["recipe"], env=True)
-    p = P.build(recipe)
+    kw = {}
+    if case.get("mode", 0) % 2 == 1 and not case["subcommand"]:
+        # every second case: a default config file that overrides some declared defaults (a further source of parser state)
+        try:
+            doc = json.dumps(G.to_jsonable(P.nest(copy.deepcopy(case["values"]))), allow_nan=False)
+            with open(os.path.join(dcf, "defaults.json"), "w") as f:
+                f.write(doc)
+            kw["default_config_files"] = [os.path.join(dcf, "defaults.json")]
+            P.build(recipe, **kw).get_defaults()  # the file must be acceptable as a source of defaults
+            ctx.cls("with-default-config-file")
+        except Exception:  # noqa  (not expressible as JSON, or rejected through the file channel)
+            kw = {}
+            ctx.cls("default-config-file-not-usable")
+    p = P.build(recipe, **kw)
     w = Watch(ctx, p, case)
     obj = P.as_object(copy.deepcopy(case["values"]), case["subcommand"])
     shapes = P.all_shapes(recipe)
@@ -229,15 +253,24 @@ def run_case(ctx, case):
         if bad_ns is not None and name == "foreign-key-last":
             w.call(f"parse_object(Namespace,{name})", p.parse_object, bad_ns)
     w.call("get_defaults", p.get_defaults)
-    d = p.get_defaults()
+    # the caller owns what get_defaults() returned: editing it must not reach the parser (checked on a parser of its own, so
+    # that a leak cannot disturb the other observations of this case)
+    p2 = P.build(recipe, **kw)
+    d = p2.get_defaults()
+    before = value_fp(d)
     for _path, x in list(_iter_containers(d)):
         try:
             x.append("MUTATED") if isinstance(x, list) else x.update({"MUTATED": 1}) if isinstance(x, dict) else None
         except Exception:  # noqa
             pass
-    w.call("get_defaults(after caller mutated an earlier result)", p.get_defaults)
-    if value_fp(p.get_defaults()) != w.state()["defaults"]:
-        pass
+    try:
+        after = value_fp(p2.get_defaults())
+    except Exception as ex:  # noqa
+        after = ("get_defaults raises", fmt_exc(ex))
+    ctx.cls("op:get_defaults(after caller mutated an earlier result)")
+    if after != before:
+        ctx.finding("C08/get_defaults/returned-object-shares-containers-with-the-parser" + ("/with-default-config-file" if kw else ""),
+                    {"difference": where(before, after) if isinstance(after, tuple) and after[0] != "get_defaults raises" else short(after, 300)})
     w.call("format_help", p.format_help)
 
     if outcome == "ok" and cfg is not None:
@@ -336,7 +369,7 @@ def run_shard(spec, ctx):
 
 def health(tier, evaluations, nontrivial, classes):
     msgs = []
-    for c in ("accepted", "op:instantiate_classes(second):ok", "op:parse_object(foreign-key-last):raised", "op:dump(invalid):raised", "op:parse_env:ok", "kind:tuple"):
+    for c in ("accepted", "with-default-config-file", "op:instantiate_classes(second):ok", "op:parse_object(foreign-key-last):raised", "op:dump(invalid):raised", "op:parse_env:ok", "kind:tuple"):
         if classes.get(c, 0) < 10:
             msgs.append(f"class {c} nearly absent ({classes.get(c, 0)})")
     return msgs
